@@ -41,7 +41,7 @@ def sigbits(v):
 
 
 def gen_cases(rng, tier, count=None):
-    count = count or (800 if tier == "quick" else 12000)
+    count = count or (1000 if tier == "quick" else 12000)
     out = []
     for i in range(count):
         algo = ALG[(i // 2 + i) % len(ALG)]
@@ -93,6 +93,15 @@ def gen_cases(rng, tier, count=None):
                 b = [float(rng.uniform(-100, 100)) for _ in range(dim)]
             else:
                 b = [float(rng.choice([-1, 1]) * 10 ** rng.uniform(0, 9)) for _ in range(dim)]
+        if not exact and i % 10 == 9:
+            # Zooming compares arm coordinates with cell faces: on Bin / DimBin the centre and the cut are the same
+            # float expression, so the twins must agree; non-dyadic boxes that straddle 0 are where (lo+hi)/2 and
+            # lo+(hi-lo)/2 round differently
+            algo, part = "Zooming", str(rng.choice(["Bin", "DimBin"]))
+            c = TW.safe_case(rng, algo, tier, part=part, dim=dim, n_choices=[200, 300, 400])
+            box = [[-float(rng.uniform(0.05, 3)), float(rng.uniform(0.05, 3))] for _ in range(dim)]
+            s = float(rng.choice([1.0, 1.0, 2.5, 0.37]))
+            b = [float(rng.choice([1.0, 8.0, -16.0, 3.3, 100.0])) for _ in range(dim)]
         c["box"] = box
         c.pop("alias_box", None)  # the image box has its own translation per coordinate
         c["box_kind"] = "dyadic" if exact else "affine"
